@@ -262,6 +262,10 @@ pub fn run_pipeline_case(
     }
     let ref_bundle = reference::take_ref_bundle(&mut ref_state, want.retention());
     let mut workload_probes = workload_reach(&ref_first, &ref_bundle, &precompile_log_ref);
+    if s.txs.len() > 8 {
+        workload_probes.push(("probe.large_block_cases", 1));
+        workload_probes.push(("probe.large_block_transactions", s.txs.len() as u64));
+    }
     let faulty = (fclass == FaultClass::PersistentErrors).then(|| {
         let db_f = SimDb::from_scenario(s, true, false);
         let mut st_f = reference::new_ref_state(&db_f, s.bundle_update);
